@@ -3,61 +3,61 @@ From GB Require Import Base.Prelude Base.Calendar Model.Cell Spec.Values.
 From GB Require Import Proofs.CellCommon Proofs.CellTemporal.
 Open Scope Z_scope.
 
-Theorem C12_date : forall ffmt tz jsonp nd uns y m d,
-  wf_value (TDate nd) uns (VDate y m d) = true -> cell_ok ffmt tz jsonp (TDate nd) uns (VDate y m d).
+Theorem C12_date : forall ffmt tz efmt jsonp nd uns y m d,
+  wf_value (TDate nd) uns (VDate y m d) = true -> cell_ok ffmt tz efmt jsonp (TDate nd) uns (VDate y m d).
 Proof. exact date_ok. Qed.
 Print Assumptions C12_date.
 
 (* pre-5.6.4 TIME, both signs, hours up to 838 *)
-Theorem C12_time : forall ffmt tz jsonp uns neg h mi s fr,
-  wf_value TTime uns (VTime neg h mi s fr) = true -> cell_ok ffmt tz jsonp TTime uns (VTime neg h mi s fr).
+Theorem C12_time : forall ffmt tz efmt jsonp uns neg h mi s fr,
+  wf_value TTime uns (VTime neg h mi s fr) = true -> cell_ok ffmt tz efmt jsonp TTime uns (VTime neg h mi s fr).
 Proof. exact time_ok. Qed.
 Print Assumptions C12_time.
 
-Theorem C12_datetime : forall ffmt tz jsonp uns y m d h mi s fr,
+Theorem C12_datetime : forall ffmt tz efmt jsonp uns y m d h mi s fr,
   wf_value TDateTime uns (VDateTime y m d h mi s fr) = true ->
-  cell_ok ffmt tz jsonp TDateTime uns (VDateTime y m d h mi s fr).
+  cell_ok ffmt tz efmt jsonp TDateTime uns (VDateTime y m d h mi s fr).
 Proof. exact datetime_ok. Qed.
 Print Assumptions C12_datetime.
 
-Theorem C12_datetime2 : forall ffmt tz jsonp f uns y m d h mi s fr,
+Theorem C12_datetime2 : forall ffmt tz efmt jsonp f uns y m d h mi s fr,
   wf_type (TDateTime2 f) = true -> wf_value (TDateTime2 f) uns (VDateTime y m d h mi s fr) = true ->
-  cell_ok ffmt tz jsonp (TDateTime2 f) uns (VDateTime y m d h mi s fr).
+  cell_ok ffmt tz efmt jsonp (TDateTime2 f) uns (VDateTime y m d h mi s fr).
 Proof. exact datetime2_ok. Qed.
 Print Assumptions C12_datetime2.
 
 (* fractional TIME, 0..6 digits, both signs (borrow from the fraction for negative values) *)
-Theorem C12_time2 : forall ffmt tz jsonp f uns neg h mi s fr,
+Theorem C12_time2 : forall ffmt tz efmt jsonp f uns neg h mi s fr,
   wf_type (TTime2 f) = true -> wf_value (TTime2 f) uns (VTime neg h mi s fr) = true ->
-  cell_ok ffmt tz jsonp (TTime2 f) uns (VTime neg h mi s fr).
+  cell_ok ffmt tz efmt jsonp (TTime2 f) uns (VTime neg h mi s fr).
 Proof. exact time2_ok. Qed.
 Print Assumptions C12_time2.
 
 (* TIMESTAMP: the stored instant rendered in the process's zone (tz = offset of that zone at an instant,
    at most one day in magnitude); the zero timestamp prints as 0000-00-00 00:00:00 *)
-Theorem C12_timestamp : forall ffmt tz jsonp, (forall v, -86400 <= tz v <= 86400) ->
+Theorem C12_timestamp : forall ffmt tz efmt jsonp, (forall v, -86400 <= tz v <= 86400) ->
   forall uns secs fr, wf_value TTimestamp uns (VTimestamp secs fr) = true ->
-  cell_ok ffmt tz jsonp TTimestamp uns (VTimestamp secs fr).
+  cell_ok ffmt tz efmt jsonp TTimestamp uns (VTimestamp secs fr).
 Proof. exact timestamp_ok. Qed.
 Print Assumptions C12_timestamp.
 
-Theorem C12_timestamp2 : forall ffmt tz jsonp, (forall v, -86400 <= tz v <= 86400) ->
+Theorem C12_timestamp2 : forall ffmt tz efmt jsonp, (forall v, -86400 <= tz v <= 86400) ->
   forall f uns secs fr, wf_type (TTimestamp2 f) = true -> wf_value (TTimestamp2 f) uns (VTimestamp secs fr) = true ->
-  cell_ok ffmt tz jsonp (TTimestamp2 f) uns (VTimestamp secs fr).
+  cell_ok ffmt tz efmt jsonp (TTimestamp2 f) uns (VTimestamp secs fr).
 Proof. exact timestamp2_ok. Qed.
 Print Assumptions C12_timestamp2.
 
 (* the calendar conversion behind the timestamp text is exact on every day reachable from a 32-bit epoch +- one day *)
 Theorem C12_civil_roundtrip : forall dz, -2 <= dz <= 49713 ->
   let '(y, m, d) := civil_of_days dz in days_of_civil y m d = dz /\ valid_civil y m d = true.
-Proof. exact (civil_roundtrip (fun _ _ => []) (fun _ => 0) (fun _ => Err EJson)). Qed.
+Proof. exact (civil_roundtrip (fun _ _ => []) (fun _ => 0) (fun _ => []) (fun _ => Err EJson)). Qed.
 Print Assumptions C12_civil_roundtrip.
 
 Example C12_nonvacuous :
   wf_value TTime false (VTime true 838 59 59 0) = true /\
   wf_value (TTime2 3) false (VTime true 0 0 0 500) = true /\
-  text (fun _ _ => []) (fun _ => 0) (TTime2 3) false (VTime true 0 0 0 500) = [45; 48; 48; 58; 48; 48; 58; 48; 48; 46; 53; 48; 48] /\
-  text (fun _ _ => []) (fun _ => 3600) TTimestamp false (VTimestamp 86400 0)
+  text (fun _ _ => []) (fun _ => 0) (fun _ => []) (TTime2 3) false (VTime true 0 0 0 500) = [45; 48; 48; 58; 48; 48; 58; 48; 48; 46; 53; 48; 48] /\
+  text (fun _ _ => []) (fun _ => 3600) (fun _ => []) TTimestamp false (VTimestamp 86400 0)
     = [49; 57; 55; 48; 45; 48; 49; 45; 48; 50; 32; 48; 49; 58; 48; 48; 58; 48; 48] /\
   wf_value (TTimestamp2 6) false (VTimestamp 0 0) = true.
 Proof. repeat split; vm_compute; reflexivity. Qed.
